@@ -201,6 +201,24 @@ def replaceAll : Nat → Bytes → Bytes → Bytes → Bytes
     else if startsWith s pat then to ++ replaceAll fuel (s.drop pat.length) pat to
     else b :: replaceAll fuel rest pat to
 
+/-- does `s` contain `pat` (non-empty) as a contiguous sub-list -/
+def containsSub : Nat → Bytes → Bytes → Bool
+  | 0, _, _ => false
+  | _, [], _ => false
+  | fuel + 1, s@(_ :: rest), pat => startsWith s pat || containsSub fuel rest pat
+
+/-- text of an actual argument (preprocess.rs:956-967): trailing whitespace removed, except that a one-line comment at the end of
+    the argument keeps the line end that terminates it -/
+def argText (full : Bytes) : Bytes :=
+  let arg := trimEnd full
+  let lastLine := (arg.reverse.takeWhile (· != 10)).reverse
+  if containsSub (lastLine.length + 1) lastLine [47, 47] then
+    let rest := full.drop arg.length
+    match rest.idxOf? 10 with
+    | some i => full.take (arg.length + i + 1)
+    | none => arg
+  else arg
+
 def bstr (s : String) : Bytes := s.toUTF8.toList.map (·.toNat)
 
 def natToDec (n : Nat) : Bytes := bstr (toString n)
@@ -386,7 +404,7 @@ set_option linter.unusedVariables false
 /-- one `Enter` arm of the event loop (see `enterStep`) -/
 def armNotDirective (C : Cfg)
     (recInner : Bytes → Defines → Bool → Bool → Nat → Nat → Except PpError (POut × Defines))
-    (recUsage : Input → Bytes → Bytes → Tree → Defines → Bool → Nat → Nat → Except PpError (Option (Bytes × Option (Bytes × Range) × Defines)))
+    (recUsage : Input → Bytes → Bytes → Tree → Defines → Bool → Bool → Nat → Nat → Except PpError (Option (Bytes × Option (Bytes × Range) × Defines)))
     (inp : Input) (s path : Bytes) (ignoreInclude stripComments : Bool) (resolveDepth includeDepth : Nat) (w2 : WState) (x : Tree) :
     Except PpError WState :=
   let K := C.K
@@ -396,7 +414,7 @@ def armNotDirective (C : Cfg)
 /-- one `Enter` arm of the event loop (see `enterStep`) -/
 def armStrLike (C : Cfg)
     (recInner : Bytes → Defines → Bool → Bool → Nat → Nat → Except PpError (POut × Defines))
-    (recUsage : Input → Bytes → Bytes → Tree → Defines → Bool → Nat → Nat → Except PpError (Option (Bytes × Option (Bytes × Range) × Defines)))
+    (recUsage : Input → Bytes → Bytes → Tree → Defines → Bool → Bool → Nat → Nat → Except PpError (Option (Bytes × Option (Bytes × Range) × Defines)))
     (inp : Input) (s path : Bytes) (ignoreInclude stripComments : Bool) (resolveDepth includeDepth : Nat) (w2 : WState) (x : Tree) :
     Except PpError WState :=
   let K := C.K
@@ -408,7 +426,7 @@ def armStrLike (C : Cfg)
 /-- one `Enter` arm of the event loop (see `enterStep`) -/
 def armKept (C : Cfg)
     (recInner : Bytes → Defines → Bool → Bool → Nat → Nat → Except PpError (POut × Defines))
-    (recUsage : Input → Bytes → Bytes → Tree → Defines → Bool → Nat → Nat → Except PpError (Option (Bytes × Option (Bytes × Range) × Defines)))
+    (recUsage : Input → Bytes → Bytes → Tree → Defines → Bool → Bool → Nat → Nat → Except PpError (Option (Bytes × Option (Bytes × Range) × Defines)))
     (inp : Input) (s path : Bytes) (ignoreInclude stripComments : Bool) (resolveDepth includeDepth : Nat) (w2 : WState) (x : Tree) :
     Except PpError WState :=
   let K := C.K
@@ -418,7 +436,7 @@ def armKept (C : Cfg)
 /-- one `Enter` arm of the event loop (see `enterStep`) -/
 def armUndef (C : Cfg)
     (recInner : Bytes → Defines → Bool → Bool → Nat → Nat → Except PpError (POut × Defines))
-    (recUsage : Input → Bytes → Bytes → Tree → Defines → Bool → Nat → Nat → Except PpError (Option (Bytes × Option (Bytes × Range) × Defines)))
+    (recUsage : Input → Bytes → Bytes → Tree → Defines → Bool → Bool → Nat → Nat → Except PpError (Option (Bytes × Option (Bytes × Range) × Defines)))
     (inp : Input) (s path : Bytes) (ignoreInclude stripComments : Bool) (resolveDepth includeDepth : Nat) (w2 : WState) (x : Tree) :
     Except PpError WState :=
   let K := C.K
@@ -429,7 +447,7 @@ def armUndef (C : Cfg)
 /-- one `Enter` arm of the event loop (see `enterStep`) -/
 def armUndefAll (C : Cfg)
     (recInner : Bytes → Defines → Bool → Bool → Nat → Nat → Except PpError (POut × Defines))
-    (recUsage : Input → Bytes → Bytes → Tree → Defines → Bool → Nat → Nat → Except PpError (Option (Bytes × Option (Bytes × Range) × Defines)))
+    (recUsage : Input → Bytes → Bytes → Tree → Defines → Bool → Bool → Nat → Nat → Except PpError (Option (Bytes × Option (Bytes × Range) × Defines)))
     (inp : Input) (s path : Bytes) (ignoreInclude stripComments : Bool) (resolveDepth includeDepth : Nat) (w2 : WState) (x : Tree) :
     Except PpError WState :=
   let K := C.K
@@ -439,7 +457,7 @@ def armUndefAll (C : Cfg)
 /-- one `Enter` arm of the event loop (see `enterStep`) -/
 def armCond (C : Cfg)
     (recInner : Bytes → Defines → Bool → Bool → Nat → Nat → Except PpError (POut × Defines))
-    (recUsage : Input → Bytes → Bytes → Tree → Defines → Bool → Nat → Nat → Except PpError (Option (Bytes × Option (Bytes × Range) × Defines)))
+    (recUsage : Input → Bytes → Bytes → Tree → Defines → Bool → Bool → Nat → Nat → Except PpError (Option (Bytes × Option (Bytes × Range) × Defines)))
     (inp : Input) (s path : Bytes) (ignoreInclude stripComments : Bool) (resolveDepth includeDepth : Nat) (w2 : WState) (x : Tree) :
     Except PpError WState :=
   let K := C.K
@@ -454,7 +472,7 @@ def armCond (C : Cfg)
 /-- one `Enter` arm of the event loop (see `enterStep`) -/
 def armWhiteSpace (C : Cfg)
     (recInner : Bytes → Defines → Bool → Bool → Nat → Nat → Except PpError (POut × Defines))
-    (recUsage : Input → Bytes → Bytes → Tree → Defines → Bool → Nat → Nat → Except PpError (Option (Bytes × Option (Bytes × Range) × Defines)))
+    (recUsage : Input → Bytes → Bytes → Tree → Defines → Bool → Bool → Nat → Nat → Except PpError (Option (Bytes × Option (Bytes × Range) × Defines)))
     (inp : Input) (s path : Bytes) (ignoreInclude stripComments : Bool) (resolveDepth includeDepth : Nat) (w2 : WState) (x : Tree) :
     Except PpError WState :=
   let K := C.K
@@ -470,7 +488,7 @@ def armWhiteSpace (C : Cfg)
 /-- one `Enter` arm of the event loop (see `enterStep`) -/
 def armComment (C : Cfg)
     (recInner : Bytes → Defines → Bool → Bool → Nat → Nat → Except PpError (POut × Defines))
-    (recUsage : Input → Bytes → Bytes → Tree → Defines → Bool → Nat → Nat → Except PpError (Option (Bytes × Option (Bytes × Range) × Defines)))
+    (recUsage : Input → Bytes → Bytes → Tree → Defines → Bool → Bool → Nat → Nat → Except PpError (Option (Bytes × Option (Bytes × Range) × Defines)))
     (inp : Input) (s path : Bytes) (ignoreInclude stripComments : Bool) (resolveDepth includeDepth : Nat) (w2 : WState) (x : Tree) :
     Except PpError WState :=
   let K := C.K
@@ -482,7 +500,7 @@ def armComment (C : Cfg)
 /-- one `Enter` arm of the event loop (see `enterStep`) -/
 def armDefine (C : Cfg)
     (recInner : Bytes → Defines → Bool → Bool → Nat → Nat → Except PpError (POut × Defines))
-    (recUsage : Input → Bytes → Bytes → Tree → Defines → Bool → Nat → Nat → Except PpError (Option (Bytes × Option (Bytes × Range) × Defines)))
+    (recUsage : Input → Bytes → Bytes → Tree → Defines → Bool → Bool → Nat → Nat → Except PpError (Option (Bytes × Option (Bytes × Range) × Defines)))
     (inp : Input) (s path : Bytes) (ignoreInclude stripComments : Bool) (resolveDepth includeDepth : Nat) (w2 : WState) (x : Tree) :
     Except PpError WState :=
   let K := C.K
@@ -520,7 +538,7 @@ def armDefine (C : Cfg)
 /-- one `Enter` arm of the event loop (see `enterStep`) -/
 def armInclude (C : Cfg)
     (recInner : Bytes → Defines → Bool → Bool → Nat → Nat → Except PpError (POut × Defines))
-    (recUsage : Input → Bytes → Bytes → Tree → Defines → Bool → Nat → Nat → Except PpError (Option (Bytes × Option (Bytes × Range) × Defines)))
+    (recUsage : Input → Bytes → Bytes → Tree → Defines → Bool → Bool → Nat → Nat → Except PpError (Option (Bytes × Option (Bytes × Range) × Defines)))
     (inp : Input) (s path : Bytes) (ignoreInclude stripComments : Bool) (resolveDepth includeDepth : Nat) (w2 : WState) (x : Tree) :
     Except PpError WState :=
   let K := C.K
@@ -554,7 +572,7 @@ def armInclude (C : Cfg)
           else
             match lit with
             | some u =>
-              (match recUsage inp s path u wB.defines stripComments (resolveDepth + 1) includeDepth with
+              (match recUsage inp s path u wB.defines ignoreInclude stripComments (resolveDepth + 1) includeDepth with
                | .error e => .error e
                | .ok (some (p, _, _)) => .ok (trimMatches 34 (trim p), [u])
                | .ok none => .ok ([], [u]))
@@ -571,13 +589,13 @@ def armInclude (C : Cfg)
 /-- one `Enter` arm of the event loop (see `enterStep`) -/
 def armUsage (C : Cfg)
     (recInner : Bytes → Defines → Bool → Bool → Nat → Nat → Except PpError (POut × Defines))
-    (recUsage : Input → Bytes → Bytes → Tree → Defines → Bool → Nat → Nat → Except PpError (Option (Bytes × Option (Bytes × Range) × Defines)))
+    (recUsage : Input → Bytes → Bytes → Tree → Defines → Bool → Bool → Nat → Nat → Except PpError (Option (Bytes × Option (Bytes × Range) × Defines)))
     (inp : Input) (s path : Bytes) (ignoreInclude stripComments : Bool) (resolveDepth includeDepth : Nat) (w2 : WState) (x : Tree) :
     Except PpError WState :=
   let K := C.K
   let bk := x.baseKind
   let wA := { (w2.skipPush x) with skip := true }
-  match recUsage inp s path x wA.defines stripComments (resolveDepth + 1) includeDepth with
+  match recUsage inp s path x wA.defines ignoreInclude stripComments (resolveDepth + 1) includeDepth with
   | .error e => .error e
   | .ok r =>
     let wB := match r with
@@ -594,7 +612,7 @@ def armUsage (C : Cfg)
 /-- one `Enter` arm of the event loop (see `enterStep`) -/
 def armPosition (C : Cfg)
     (recInner : Bytes → Defines → Bool → Bool → Nat → Nat → Except PpError (POut × Defines))
-    (recUsage : Input → Bytes → Bytes → Tree → Defines → Bool → Nat → Nat → Except PpError (Option (Bytes × Option (Bytes × Range) × Defines)))
+    (recUsage : Input → Bytes → Bytes → Tree → Defines → Bool → Bool → Nat → Nat → Except PpError (Option (Bytes × Option (Bytes × Range) × Defines)))
     (inp : Input) (s path : Bytes) (ignoreInclude stripComments : Bool) (resolveDepth includeDepth : Nat) (w2 : WState) (x : Tree) :
     Except PpError WState :=
   let K := C.K
@@ -619,7 +637,7 @@ end Arms
     `recInner` = `preprocess_inner` (an `include), `recUsage` = `resolve_text_macro_usage`; the result is the walker state after the event. -/
 def enterStep (C : Cfg)
     (recInner : Bytes → Defines → Bool → Bool → Nat → Nat → Except PpError (POut × Defines))
-    (recUsage : Input → Bytes → Bytes → Tree → Defines → Bool → Nat → Nat → Except PpError (Option (Bytes × Option (Bytes × Range) × Defines)))
+    (recUsage : Input → Bytes → Bytes → Tree → Defines → Bool → Bool → Nat → Nat → Except PpError (Option (Bytes × Option (Bytes × Range) × Defines)))
     (inp : Input) (s path : Bytes) (ignoreInclude stripComments : Bool) (resolveDepth includeDepth : Nat) (w2 : WState) (x : Tree) :
     Except PpError WState :=
   let K := C.K
@@ -695,10 +713,10 @@ def preprocessInner (C : Cfg) : Nat → Bytes → Defines → Bool → Bool → 
     | some (some content) => preprocessStr C fuel content path preDefines ignoreInclude stripComments resolveDepth includeDepth
 
 /-- `resolve_text_macro_usage` -/
-def resolveUsage (C : Cfg) : Nat → Input → Bytes → Bytes → Tree → Defines → Bool → Nat → Nat →
+def resolveUsage (C : Cfg) : Nat → Input → Bytes → Bytes → Tree → Defines → Bool → Bool → Nat → Nat →
     Except PpError (Option (Bytes × Option (Bytes × Range) × Defines))
-  | 0, _, _, _, _, _, _, _, _ => .error .oof
-  | fuel + 1, inp, _s, path, x, defines, stripComments, resolveDepth, includeDepth =>
+  | 0, _, _, _, _, _, _, _, _, _ => .error .oof
+  | fuel + 1, inp, _s, path, x, defines, ignoreInclude, stripComments, resolveDepth, includeDepth =>
     let K := C.K
     let id := (match (x.kids.drop 1).head? with | some name => identOf K inp name | none => none).getD []
     if resolveDepth > recursiveLimit then .error .exceedRecursiveLimit
@@ -710,7 +728,7 @@ def resolveUsage (C : Cfg) : Nat → Input → Bytes → Bytes → Tree → Defi
         match parenKids.find? (fun k => k.baseKind == K.listOfActualArguments) with
         | some la => (listItemsOpt K K.actualArgument la.kids).map (fun o =>
             match o with
-            | some a => (match a.kids.head? with | some (.leaf o l _) => some (trimEnd (bytesOf inp o l)) | _ => some [])
+            | some a => (match a.kids.head? with | some (.leaf o l _) => some (argText (bytesOf inp o l)) | _ => some [])
             | none => none)
         | none => []
       match defines.get? id with
@@ -736,6 +754,8 @@ def resolveUsage (C : Cfg) : Nat → Input → Bytes → Bytes → Tree → Defi
                 match lookup chunk with
                 | some v => acc ++ v
                 | none =>
+                  -- an ordinary string literal in the macro text is left as it is
+                  if chunk.head? == some 34 then acc ++ chunk else
                   let c1 := replaceAll n chunk [96, 96] []
                   let c2 := replaceAll n c1 [96, 92, 96, 34] [92, 34]
                   let c3 := replaceAll n c2 [96, 34] [34]
@@ -744,7 +764,7 @@ def resolveUsage (C : Cfg) : Nat → Input → Bytes → Bytes → Tree → Defi
                   let c6 := replaceAll n c5 [92, 13] [13]
                   acc ++ c6) []
               let replaced2 := match paren with | some p => replaced ++ p | none => replaced
-              match preprocessStr C fuel replaced2 path defines false stripComments resolveDepth includeDepth with
+              match preprocessStr C fuel replaced2 path defines ignoreInclude stripComments resolveDepth includeDepth with
               | .error e => .error e
               | .ok (out, nd) => .ok (some (out.text, dt.origin, nd))
 end
